@@ -39,12 +39,12 @@ type Solver struct {
 	Log   io.Writer // optional transcript
 	// Script mirrors every command of the current assertion stack so that a
 	// query can be dumped as a standalone file for other solvers.
-	global []string   // declarations / definitions (never popped)
-	frames [][]string // assertions per level
-	kind   string
-	argv   []string
+	global    []string   // declarations / definitions (never popped)
+	frames    [][]string // assertions per level
+	kind      string
+	argv      []string
 	TimeoutMs int
-	LastErr string
+	LastErr   string
 }
 
 func SolverArgv(kind string) []string {
@@ -61,6 +61,9 @@ func SolverArgv(kind string) []string {
 
 func NewSolver(kind string, timeoutMs int) (*Solver, error) {
 	s := &Solver{kind: kind, argv: SolverArgv(kind), TimeoutMs: timeoutMs}
+	if (kind == "z3" || kind == "z3-new") && timeoutMs > 0 {
+		s.argv = append(s.argv, fmt.Sprintf("-t:%d", timeoutMs))
+	}
 	if err := s.start(); err != nil {
 		return nil, err
 	}
